@@ -18,7 +18,11 @@ MANIFEST = {
     "C08_normal_return_partial -- a call that returns normally ended with the task over, state idle, nothing open, "
     "_interrupted unset, and the loop left through a swallowing handler (StopIteration => plan exhausted); "
     "C08_interrupt_sources -- _interrupted is set only by a non-deferred pause, abort/stop/halt (even refused) and a "
-    "suspension request in a non-resumable section, and among the command handlers only by `pause`. "
+    "suspension request in a non-resumable section, and among the command handlers only by `pause`; "
+    "C08_interrupted_idle_explained (history invariant through every block, request and the scheduler) -- if a call ends "
+    "with _interrupted set and the engine idle, then its own logs show a transition into aborting/stopping/halting, OR the "
+    "transition pausing->idle (= F4), OR a refused request (= finding 'refused stop'); C08_partial = the documented "
+    "statement under the two hypotheses excluding exactly these two open findings. "
     "C08_full (RunEngineInterrupted with state idle only after an abort/stop/halt/FailedPause) is FALSE on the unchanged "
     "tree: Counterexamples/C08.lean evaluates the F4 scenario (pause request in the exit sleep(0)) on the model.",
     "note": "Trusted: Lean kernel; engine_extract.py; hand-written _run machine tied by correspondence runs under the "
@@ -50,6 +54,9 @@ def segments(o):
             "text": o["return_texts"][i],
             "trans": [x for x, t in zip(o["trans"], tk["trans"]) if lo < t <= hi],
             "arr": [(k, kind) for k, (kind, t) in enumerate(zip(o["arrivals"], tk["arrivals"])) if lo < t <= hi],
+            # runs that have a RunStart but no RunStop when the call hands control back
+            "unclosed": sorted({d["run"] for d, t in zip(o["docs"], tk["docs"]) if t <= hi and d["k"] == "start"}
+                               - {d["run"] for d, t in zip(o["docs"], tk["docs"]) if t <= hi and d["k"] == "stop"}),
         })
         lo = hi
     return segs
@@ -90,8 +97,8 @@ def oracle(sc, o):
                         reqs = sorted({r for k, _ in g["arr"] for r in requests_at(sc, k)})
                         sig = "interrupted-but-idle-without-termination:" + ("plan-complete:" if o["plan_finished"] else "") + "+".join(reqs or ["no-request"])
                     bad.append((sig, f"{op} raised RunEngineInterrupted, the engine is idle, but no abort/stop/halt/FailedPause happened in this call (transitions {g['trans']}, plan_finished={o['plan_finished']}, requests in the exit sleep: {s4_reqs}, refused: {o['refused']})"))
-                if open_runs != 0:
-                    bad.append((f"idle-with-open-runs:{op}", f"{op} raised RunEngineInterrupted, state idle, but {open_runs} run(s) are still open"))
+                if open_runs != 0 or g["unclosed"]:
+                    bad.append((f"idle-with-open-runs:{op}", f"{op} raised RunEngineInterrupted, state idle, but {open_runs} run bundler(s) are left and runs {g['unclosed']} have no RunStop"))
             else:
                 bad.append((f"interrupted-in-state:{state}", f"{op} raised RunEngineInterrupted and left the engine in state {state!r}"))
         elif result == "return":
@@ -99,8 +106,8 @@ def oracle(sc, o):
                 bad.append((f"returned-but-not-idle:{state}", f"{op} returned normally but the engine is in state {state!r}"))
             if not o["plan_finished"]:
                 bad.append((f"returned-but-plan-not-complete:{op}", f"{op} returned normally but the plan did not run to completion (transitions {g['trans']})"))
-            if open_runs != 0:
-                bad.append((f"returned-with-open-runs:{op}", f"{op} returned normally, state {state}, but {open_runs} run(s) are still open"))
+            if open_runs != 0 or g["unclosed"]:
+                bad.append((f"returned-with-open-runs:{op}", f"{op} returned normally, state {state}, but {open_runs} run bundler(s) are left and runs {g['unclosed']} have no RunStop"))
     return bad
 
 
@@ -196,7 +203,7 @@ def run(ctx, model=True):
     if _ENUM is None:
         _ENUM = enumerate_all()
     extra = _ENUM if (ctx.tier == "thorough" or ctx.deep) else ctx.rng.sample(_ENUM, 50)
-    return E.run_property(ctx, "C08", oracle, gen=gen, quick=50, thorough=1200, model=model, extra_scenarios=extra)
+    return E.run_property(ctx, "C08", oracle, gen=gen, quick=60, thorough=1200, model=model, extra_scenarios=extra)
 
 
 def run_impl_only(ctx):
